@@ -67,7 +67,7 @@ CHECKS = {
     "C08": dict(
         text="Static, inductive over histories: for every tracker state satisfying the state invariant and every next burst kind (with the decoded PDU's decision fields symbolic) the real Transmission.process_packet is analysed with observers as "
              "effect stubs: never raises, ended(K) only while K is open, the ended event hands over the current header and the very blocks list, afterwards idle with fresh list / no header / fresh stream id / reset counters, invariant preserved; "
-             "A-F label table (7 previous labels x 3 burst kinds), Timeslot receive-sequence counter exact for all 256 values and the tracker's own (a burst carrying another sequence number does not set it), observer isolation with observers raising an Exception and a BaseException-only kind, overrides call super.",
+             "A-F label table (7 previous labels x 3 burst kinds), Timeslot receive-sequence counter exact for all 256 values and the tracker's own (a burst carrying another sequence number does not set it), observer isolation with observers raising an Exception and a BaseException-only kind, overrides call super. The compressed UDP/IPv4 decoder that end_data_transmission runs over the collected user data is the real one on symbolic octets (not a stub), values an element enumeration refuses are raising paths; the first preamble starts the count-down with the announced number for all 256 values; after a delivered end the tracker may be idle or already in the next transmission.",
         technique="abstract interpretation of the state machine on (abstract state) x (burst kind) products with effect recording; inductive state invariant",
         note="trusted: PDU decoders/BPTC stubbed (C02/C03); the invariant enumerates header kinds {none, full LC, data header}; 'never raises' is relative to those stubs",
         ref="DESIGN.md §3 C08"),
@@ -95,7 +95,7 @@ CHECKS = {
     "C12": dict(
         text="Static, shape-seeded: the captured packets in the repository's own tests (hex constants read as data) plus sibling shapes (the captured object re-encoded under every other opcode its service accepts) give object shapes by constant evaluation; "
              "for each shape every scalar/byte field is replaced by symbols and the real as_bytes -> from_bytes -> as_bytes chain is analysed abstractly: every transmitted field bit decoded back, identical re-encoding, HDAP frame rules "
-             "(service|reliable byte, length field in the protocol's endianness, checksum fed with exactly opcode..payload, 0x03, len()), HRNP length field, checksum coverage and checksum field = the value computed over that input (the sum is an uninterpreted function wherever it lives: in verify_checksum or in a helper), carry handling of the HRNP sum by interval analysis, HSTRP option TLV chain; the verdict of HRNP.verify_checksum by constant evaluation on crafted boundary frames; every (class, opcode) pair of the pinned implemented-opcode table is still written and read back (the five RRS messages are built through the constructor); range assertions on radio-id / request-id fields explored over the whole wire width; text-format rules for the GPS block (reader slices, table-driven or literal, against f-string / format() writers; Literal flags never tested for truthiness); optional-field dereference. Two known findings.",
+             "(service|reliable byte, length field in the protocol's endianness, checksum fed with exactly opcode..payload, 0x03, len()), HRNP length field, checksum coverage and checksum field = the value computed over that input (the sum is an uninterpreted function wherever it lives: in verify_checksum or in a helper), carry handling of the HRNP sum by interval analysis, HSTRP option TLV chain; the verdict of HRNP.verify_checksum by constant evaluation on crafted boundary frames; every (class, opcode) pair of the pinned implemented-opcode table is still written and read back (the five RRS messages are built through the constructor); range assertions on radio-id / request-id fields explored over the whole wire width; text-format rules for the GPS block (reader slices, table-driven or literal, against f-string / format() writers; Literal flags never tested for truthiness); optional-field dereference. Two known findings. Messages no capture carries are built through the constructors and analysed like captured shapes: the five RRS messages, RCP SendTalkerAliasRequest (every alias format) and RadioIDAndRadioIPQueryReply, HSTRP connect/close packets with option lists (a zero-length option last in the datagram, every documented option type, one option twice); the number of captured packets followed through reader and writer is pinned.",
         technique="abstract interpretation over GF(2)-affine bit forms on shapes obtained by constant evaluation of captured packets; interval analysis of the checksum accumulator; syntax-tree format-width rule",
         note="trusted: shapes are those of the captures (+siblings, + constructor-built RRS messages) listed in the evidence; the implemented-opcode table is the reference confirmed on today's tree; checksums are uninterpreted functions of exactly the bytes fed to them (coverage checked, arithmetic not); GPS text block boxed",
         ref="DESIGN.md §3 C12"),
@@ -119,27 +119,27 @@ CHECKS = {
         text="Static: (1) the LRRP token tables against the type dispatch of read_document and write_part (handled by both or rejected by both — a one-sided type must be rejected by the writer or round-trip; single-octet ids, attribute ids defined); (2) every LRRP document id is parsed with the element-token table of its kind (constant evaluation of get_configuration per id) and that configuration is what the parser and the serialiser actually use (document-implementation); "
              "(3) abstract interpretation of the real as_bytes -> from_bytes -> as_bytes chain on document shapes — the captured documents of the tests, their siblings with an inline constant table of 0, 1 and 3 octets, 2-3 documents per buffer, and documents assembled through get_token "
              "for every implemented token x attribute choice and for the same attribute-bearing token twice, with every content octet (opaque ids, coordinates, info-time, uint8, constant table; up to 200-octet values and 340-octet bodies) symbolic: token ids, values, attributes and bytes are restored for all content values at once, "
-             "and the reader never branches on content; variable-length numbers are constant-evaluated at boundary values (127/128/16384, 63.5/64.5, negative fractions) only; (4) one process history per order (parse request, parse report, look every token up twice): get_token keeps returning the table entry and the class-level tables are unchanged.",
+             "and the reader never branches on content; variable-length numbers are constant-evaluated at boundary values (127/128/16384, 63.5/64.5, negative fractions) only; (4) one process history per order (parse request, parse report, look every token up twice): get_token keeps returning the table entry and the class-level tables are unchanged. Inline constant tables include the one that equals the default table of the document kind.",
         technique="table / dispatch agreement over the syntax tree; abstract interpretation (GF(2)-affine bit forms) of writer -> reader -> writer on constant-evaluated and API-assembled shapes; per-path class-state comparison",
         note="trusted: token SEQUENCES are those of the captures and the API-assembled documents (not all sequences of 0..12 tokens); numeric token values at the listed boundary constants (all 2^32 values are C14, not claimed); a token's required attribute is always supplied",
         ref="DESIGN.md §3 C15"),
     "C16": dict(
         text="Static, shape-seeded (captures of the TMS/ARS tests): per shape all scalar/byte fields symbolic — the 7-bit TMS sequence number and ARS refresh time as bit atoms so that the one/two-octet optional header and reserved-folding enums are decided exactly for all 128 values — "
-             "small enumerations that the owner class only serialises varied over their defined members, the TMS more-headers flag (derived by the serialiser) symbolic — and the real writer/reader chain analysed abstractly: fields restored, identical re-encoding, leading length == octets that follow, len() agrees; per-octet symbolic wire probe (decode-then-encode); non-ASCII identifier variants for the ARS len-value fields; every boolean constructor flag must survive build -> serialise -> parse for both values; boundary-length variants of the captured shapes (address 127/128/255, message 254/256/400 octets).",
+             "small enumerations that the owner class only serialises varied over their defined members, the TMS more-headers flag (derived by the serialiser) symbolic — and the real writer/reader chain analysed abstractly: fields restored, identical re-encoding, leading length == octets that follow, len() agrees; per-octet symbolic wire probe (decode-then-encode); non-ASCII identifier variants for the ARS len-value fields; every boolean constructor flag must survive build -> serialise -> parse for both values; boundary-length variants of the captured shapes (address 127/128/255, message 254/256/400 octets). Every defined member of a transmitted enumeration field must come back as that member (captured shape and one-flag-inverted variants, constant evaluation); the number of captured packets followed is pinned.",
         technique="abstract interpretation over GF(2)-affine / finite-function domains on shapes obtained by constant evaluation of captured packets",
         note="trusted: shapes = captures in okdmr/tests/dmrlib/motorola (+ non-ASCII variants); text content opaque; the reserved header bit that the writer normalises is kept at its captured value",
         ref="DESIGN.md §3 C16"),
     "C17": dict(
         text="Static: every path of the real HSTRP and RRS datagram_received (18 + 65 paths) is enumerated by abstract interpretation with the decoder replaced by 'raises (one path per exception family: AssertionError, ValueError, KeyError, IndexError) | None | HSTRP with symbolic type bits, S/N, payload kind' "
              "and the transport as an effect-recording stub; hstrp_send_ack/heartbeat/rrs_confirm/deepcopy/as_bytes are interpreted for real, so each answer's bytes are bit forms over the request's atoms. Rules over (fixed type bits, effects, final state): "
-             "never raises, acks never answered, exactly one ack with the request's S/N and no payload, heartbeat echo only while connected, connected flag (in the HSTRP layer and in the RRS layer, whatever the payload), registry updates, one bounded-S/N confirm per registration. Interval rule: every method that assigns the handler's own sequence number maps the invariant [0,0xFFFF] at its entry to the same invariant at each exit (interprocedural interval flow with refinement; no 2-octet overflow after any history length).",
+             "never raises, acks never answered, exactly one ack with the request's S/N and no payload, heartbeat echo only while connected, connected flag (in the HSTRP layer and in the RRS layer, whatever the payload), registry updates, one bounded-S/N confirm per registration. Interval rule: every method that assigns the handler's own sequence number maps the invariant [0,0xFFFF] at its entry to the same invariant at each exit (interprocedural interval flow with refinement; no 2-octet overflow after any history length). Handler attributes other than the modelled ones that some method assigns and reads are arbitrary (symbolic) at the entry of the analysed step.",
         technique="path enumeration by abstract interpretation with symbolic booleans (trace partitioning), effect sequences per path; interval analysis of the sequence counter",
         note="trusted: the decoder abstraction (any datagram either is rejected or yields an HSTRP object); 'never raises' is decided for the handler paths under that abstraction, not for the byte-level decoder",
         ref="DESIGN.md §3 C17"),
     "C18": dict(
         text="Static: the real P2P handler + RepeaterStorage + Repeater are analysed for each request kind x authorisation state of the sender with a symbolic datagram body (effects = sendto calls): reject exactly once to the requester when "
              "unregistered, serve only to stored/own addresses when registered, registration marks exactly the sender; RDAC: for every step value and datagram shape the effects, the sender's and another peer's step entries and the completion callback are inspected; "
-             "repository-wide single-writer scan for the registered attribute. P2P datagram lengths analysed: 32 and every length around a constant the handlers compare len(data) with (derived from the source).",
+             "repository-wide single-writer scan for the registered attribute. P2P datagram lengths analysed: 32 and every length around a constant the handlers compare len(data) with (derived from the source). RDAC: the response a step advances on and the step it leads to are pinned by value; P2P: commands cut off before their type octet are analysed as well.",
         technique="abstract interpretation of handlers on scenario x state products with effect recording; syntax-tree ownership scan",
         note="trusted: read_snmp_values replaced by a no-op; datagram bodies of fixed analysed length; histories are covered as (any stored state) x (any next datagram), i.e. inductively per step",
         ref="DESIGN.md §3 C18"),
@@ -148,14 +148,14 @@ CHECKS = {
              "a parameter, or a process-lifetime object (class-/module-level mutable value, mutable default value, lru_cache result). Rules: no function mutates a process-lifetime object (inventory of ~70 objects and 18 mutable defaults; the CRC singletons are discharged by a "
              "re-initialised-before-use proof over init/update/digest field sets, MBXML.DEBUG by a diagnostic-only-reads rule, memo stores only when the key determines the value — every input in the backward slice of the stored value is a variable the key preserves); no memoised function hands its mutable result to the caller of an entry point; no class-/module-level one-shot iterator (also when it is the result of a library function that returns one); no codec function mutates a buffer parameter that can come from outside, directly, through an alias or by passing it on "
              "(6 documented in-place helpers listed with reasons, call sites still checked); read-path methods apply no toggling in-place operation to self and keep no memo on the object; no codec function or import-time default expression reaches a clock / random source or the salted builtin hash(). "
-             "A probe module with one seeded violation per rule is analysed on every run (positive controls) together with pure twins.",
+             "A probe module with one seeded violation per rule is analysed on every run (positive controls) together with pure twins. next() advances an iterator in place; stateful handles (itertools, incremental codecs, ...) are neither class-level constants nor memo values; no codec function returns a view of a class-level buffer; the CRC register's init must not alias a configuration object.",
         technique="flow-sensitive intraprocedural alias analysis with interprocedural mutation / return-alias summaries, field-sensitive shared-origin store, call-graph reachability; must-pass-through + field-set rule for the CRC register",
         note="decides the absence of every mechanism by which call history could matter (shared mutable state, argument aliasing, clock), not result equality over histories as such; unresolved receivers are over-approximated by method name (reported only when they reach shared state); "
              "external library calls assumed non-mutating except a listed set; threads out of scope",
         ref="DESIGN.md §3 C19"),
     "C20": dict(
         text="Static: ownership rules over the syntax tree (registry writers, read-only lookups, single writer of Repeater.id) plus abstract interpretation of the real storage methods on scenario sequences with symbolic patch values "
-             "(identity of repeated lookups, growth only on auto-create of unseen addresses — another port of a known ip is unseen —, key == record.id coherence, patch touches exactly the named fields of exactly the matched record, also when handed to the creating call or applied twice to one dynamic attribute; falsy values False / 0 / '' are set like any other; a patch handed to a look-up of an unseen address without auto-create creates nothing and returns None). Includes re-addressing a record through its own patch() followed by look-ups (no stale look-up memo).",
+             "(identity of repeated lookups, growth only on auto-create of unseen addresses — another port of a known ip is unseen —, key == record.id coherence, patch touches exactly the named fields of exactly the matched record, also when handed to the creating call or applied twice to one dynamic attribute; falsy values False / 0 / '' are set like any other; a patch handed to a look-up of an unseen address without auto-create creates nothing and returns None). Includes re-addressing a record through its own patch() followed by look-ups (no stale look-up memo). Boundary ports (0, 1, 0x7FFF, 0x8000, 0xFFFE, 0xFFFF) of one ip are pairwise different addresses (constant evaluation).",
         technique="syntax-tree ownership / who-may-write rules; abstract interpretation of scenario sequences",
         note="trusted: uuid4 results distinct, name-based uuid5 / uuid3 results a function of their arguments; sequences beyond the analysed scenarios are covered by the ownership rules only",
         ref="DESIGN.md §3 C20"),
